@@ -747,8 +747,29 @@ func fixpointOfAccepted(b []byte, o *bgp.MarshallingOption, st *verifkit.Stats, 
 		}
 		if u, ok := p.Body.(*bgp.BGPUpdate); ok && len(u.PathAttributes) == len(w.attrs) {
 			for i, a := range u.PathAttributes {
-				if a.Len(o) != w.attrs[i].hdr+w.attrs[i].vlen {
-					return verifkit.Failf("accepted-attr-len", "accepted input %x: attribute %d (%s) occupies %d octets but Len() reports %d", b, i, a.GetType(), w.attrs[i].hdr+w.attrs[i].vlen, a.Len(o))
+				occupied := w.attrs[i].hdr + w.attrs[i].vlen
+				switch a.(type) {
+				case *bgp.PathAttributeMpReachNLRI, *bgp.PathAttributeMpUnreachNLRI:
+					// Since the repair of C04-K2 Len(o) of an MP attribute is computed from the value, like
+					// Serialize(o): it is the length of what would be sent (path identifiers of the send
+					// direction included), and the UPDATE decoder advances by the attribute header instead.
+					// For an input the decoder normalises (a second next hop that is not link-local is
+					// dropped, the RD of a VPN next hop is rewritten to zero, ...) that is not the number of
+					// octets received; how the received octets were framed is compared by compareFraming above.
+					ab, err := a.Serialize(o)
+					if err != nil {
+						continue // reported below (accepted-unserialisable)
+					}
+					if len(ab) != occupied {
+						st.Label("accepted-mp-attr-normalised")
+					}
+					if a.Len(o) != len(ab) {
+						return verifkit.Failf("accepted-attr-len", "accepted input %x: attribute %d (%s) reports Len()=%d but emits %d octets (received in %d)", b, i, a.GetType(), a.Len(o), len(ab), occupied)
+					}
+					continue
+				}
+				if a.Len(o) != occupied {
+					return verifkit.Failf("accepted-attr-len", "accepted input %x: attribute %d (%s) occupies %d octets but Len() reports %d", b, i, a.GetType(), occupied, a.Len(o))
 				}
 			}
 		}
